@@ -467,6 +467,11 @@ fn one_case(ctx: &mut Ctx, tx: &Transaction, w: &txgen::World, c: &Costs, factor
         ctx.count("guards.hold");
         if any_panic { ctx.oracle_fail("panic-inside-guards", &req, "a fee computation panicked although factor >= 1 and every units_per_gas >= 1"); }
     } else {
+        let d = default_costs();
+        if factor != 0 && c.version == 7 && dep(&c.s256) == dep(&d.s256) && dep(&c.contract_root) == dep(&d.contract_root) && dep(&c.state_root) == dep(&d.state_root) && dep(&c.vm_init) == dep(&d.vm_init) {
+            // the repository's own default gas costs must be inside the guards
+            ctx.oracle_fail("default-gas-costs-outside-guards", &req, "GasCosts::default() has a LightOperation with units_per_gas = 0: fee computations panic");
+        }
         ctx.count(if factor == 0 { "guards.factor-zero" } else { "guards.units-per-gas-zero" });
         if any_panic { ctx.count("panic.outside-guards"); }
     }
